@@ -30,7 +30,8 @@ ASSUMPTIONS = [
     'string bytes (calls) and scanned signature characters (scan)',
     'the line budget constants LINE_A, LINE_B, the cost constants COST_A, COST_C and the size constants SIZE_A, SIZE_K were calibrated once on '
     'valid traffic (the seed messages and C01-style typed values) with a factor-of-10 margin; every run re-measures the valid-traffic maxima '
-    'and records them in evidence next to the constants',
+    'and records them in evidence next to the constants; the run reports the cost correspondence broken only when valid traffic comes '
+    'within a factor of 3 of a budget (the factor of 10 is recorded, not demanded: harmless rewrites may add a few lines per value)',
     'RecursionError (interpreter recursion limit, default 1000 frames, 2 frames per container level) is classed ResourceLimit and not compared; '
     'it is an Exception, so like every other exception raised by parseMessage it propagates out of DBusProtocol.dataReceived / '
     'rawDBusMessageReceived into Twisted, which logs it and drops that one connection (modelled by the C04 builder; here only assumed)',
@@ -585,7 +586,14 @@ def calibrate(ctx, res):
     ok = (LINE_B >= 10 * worst['lines_per_byte'] and LINE_A >= 10 * worst['lines_fixed'] and COST_C >= 10 * worst['lines_per_tick']
           and SIZE_K >= 10 * worst['size_per_byte'])
     res.extra['calibration']['margin_of_10_holds'] = ok
-    return ok
+    # The factor of 10 is how the constants were chosen on the pinned tree; it is recorded, not demanded: a harmless
+    # rewrite that executes a few per cent more interpreter lines per message (a helper call per value, say) must not
+    # alarm.  What is demanded is that valid traffic stays a factor of 3 inside the budgets - below that the budgets
+    # could no longer tell ordinary traffic from disproportionate work and the cost correspondence is reported broken.
+    gate = (LINE_B >= 3 * worst['lines_per_byte'] and LINE_A >= 3 * worst['lines_fixed'] and COST_C >= 3 * worst['lines_per_tick']
+            and SIZE_K >= 3 * worst['size_per_byte'])
+    res.extra['calibration']['margin_of_3_holds'] = gate
+    return gate
 
 
 def legacy_distinguished(ctx, res):
@@ -610,7 +618,7 @@ def run(ctx, res):
                 'truncations / bit flips / neighbouring signatures; non-trivial: all; distinct by hash')
     if not calibrate(ctx, res):
         res.disagree({'kind': 'calibration'}, res.extra['calibration']['valid_traffic_maxima_this_run'],
-                     res.extra['calibration']['constants'], 'valid traffic is no longer a factor of 10 inside the budgets')
+                     res.extra['calibration']['constants'], 'valid traffic is no longer a factor of 3 inside the budgets')
     legacy_distinguished(ctx, res)
     batch = []
     for c in gen_cases(ctx):
